@@ -227,3 +227,30 @@ Proof.
   intros Hs. induction l as [|x r IH]; intros n v Hn; [cbn in Hn; lia|].
   rewrite Hs. destruct n; cbn [map set_item]; [reflexivity|]. rewrite IH by (cbn in Hn; lia). reflexivity.
 Qed.
+
+(* a `for` whose body always ends normally: a fold over the elements, with an invariant tying the abstract state to the
+   environment and the world *)
+Lemma for_each_fold {A S} (conv : A -> value) (I : S -> env -> world -> Prop) step (f : S -> A -> S) :
+  (forall s en w a, I s en w -> exists en' w', I (f s a) en' w' /\ step (conv a) en w = SOk CNormal en' w') ->
+  forall l s en w, I s en w -> exists en' w', I (fold_left f l s) en' w' /\ for_each step (map conv l) en w = SOk CNormal en' w'.
+Proof.
+  intros Hstep. induction l as [|a l IH]; intros s en w HI; cbn [map for_each fold_left].
+  - exists en, w. auto.
+  - destruct (Hstep s en w a HI) as (en1 & w1 & H1 & ->). apply IH. exact H1.
+Qed.
+
+(* dicts and data strings *)
+Lemma key_eqb_ints a b : key_eqb (of_Z a) (of_Z b) = Some (a =? b)%Z.
+Proof. destruct a, b; reflexivity. Qed.
+Lemma key_eqb_texts a b : key_eqb (VText a) (VText b) = Some (text_eqb a b).
+Proof. reflexivity. Qed.
+
+Lemma for_each_fold_in {A S} (conv : A -> value) (I : S -> env -> world -> Prop) step (f : S -> A -> S) (P : A -> Prop) :
+  (forall s en w a, P a -> I s en w -> exists en' w', I (f s a) en' w' /\ step (conv a) en w = SOk CNormal en' w') ->
+  forall l s en w, Forall P l -> I s en w ->
+  exists en' w', I (fold_left f l s) en' w' /\ for_each step (map conv l) en w = SOk CNormal en' w'.
+Proof.
+  intros Hstep. induction l as [|a l IH]; intros s en w HP HI; cbn [map for_each fold_left].
+  - exists en, w. auto.
+  - inversion HP; subst. destruct (Hstep s en w a H1 HI) as (en1 & w1 & HI1 & ->). apply IH; assumption.
+Qed.
